@@ -279,6 +279,22 @@ def reset(wd, files):
     for name, data in files.items():
         with open(os.path.join(wd, name), "wb") as fh:
             fh.write(data if isinstance(data, bytes) else data.encode())
+    for name in files:
+        # every file carries one and the same time stamp (a restored tree):
+        # neither sizes nor time stamps tell a stale twin from the original
+        os.utime(os.path.join(wd, name), ns=(1_600_000_000 * 10**9,) * 2)
+
+
+def twin_of(text):
+    """Other bytes of the same length (what a look at size and time stamp
+    takes for the same file)."""
+    data = text if isinstance(text, bytes) else text.encode()
+    out = bytearray(data)
+    for i, ch in enumerate(out):
+        if chr(ch).isalnum():
+            out[i] = ord("Q") if ch != ord("Q") else ord("Z")
+            break
+    return bytes(out)
 
 
 def snapshot(wd):
@@ -464,9 +480,12 @@ def scenario(sc, wd, di):
 
 def save_faults(st, wd, sc, di, pairs):
     tool, argv, files, tname = scenario(sc, wd, di)
-    for stale in (False, True):
+    for stale in (False, True, "twin"):
         base = dict(files)
-        if stale:
+        if stale == "twin":
+            # a stale backup of the target's very size and time stamp
+            base[tname + ".bak"] = twin_of(base[tname])
+        elif stale:
             base[tname + ".bak"] = STALE
         original = base[tname].encode()
         # fault-free run: count the calls, check the completed state
